@@ -335,6 +335,8 @@ def run_rebuild(case):
                      # an interrupted earlier copy: right bytes, then a torn tail
                      "shorter_dirty": data[:max(0, len(data) * 3 // 4 - 50)] + b"\xee" * min(50, len(data) * 3 // 4)}.get(dp, b"")
                 write_file(dest_path(ti, f), b)
+                if case["id"] % 2:        # put there days ago: older than every candidate in the search directories
+                    os.utime(dest_path(ti, f), (1.6e9, 1.6e9))
                 pre[(ti, fi)] = b
         os.makedirs(os.path.join(sbx, "abs"), exist_ok=True)
         # symbolic links that already exist INSIDE the destination and lead out of it: at the position of a file
